@@ -71,6 +71,34 @@ def gen_sps(rnd):
     return sps
 
 
+def mappings_in_lists_check():
+    """values compared 'as Python compares them': mappings inside lists are equal whatever their key insertion order (same session, so
+    that the order in which the caller spelled them survives); the jobs agree on `a` and differ in `b`"""
+    import signac
+    from signac.diff import diff_jobs
+    out = []
+    variants = [([{"x": 1, "y": 2}], [{"y": 2, "x": 1}]), ([1, {"p": {"u": 1, "v": 2}, "q": 0}], [1, {"q": 0, "p": {"v": 2, "u": 1}}])]
+    for va, vb in variants:
+        with project_scratch() as p:
+            j1 = p.open_job({"a": va, "b": 1}).init()
+            j2 = p.open_job({"a": vb, "b": 2}).init()
+            try:
+                sch = p.detect_schema(exclude_const=False)
+                na = sum(len(vs) for vs in sch["a"].values())
+                if na != 1:
+                    out.append(("schema", f"state points a={va} / a={vb} (equal values): detect_schema reports {na} values for key a"))
+                sch2 = p.detect_schema(exclude_const=True)
+                if "a" in sch2 or "b" not in sch2:
+                    out.append(("schema-exclude-const", f"state points a={va} / a={vb} (equal) and b=1 / b=2: detect_schema(exclude_const=True) reports the keys {sorted(sch2)}"))
+                d = diff_jobs(j1, j2)
+                got = {i: sorted(json.loads(json.dumps(v))) for i, v in d.items()}
+                if got != {j1.id: ["b"], j2.id: ["b"]}:
+                    out.append(("diff", f"state points a={va} / a={vb} (equal) and b=1 / b=2: diff_jobs lists the keys {got}"))
+            except Exception as e:
+                out.append(("raised", f"schema / diff over state points with mappings inside lists raised {type(e).__name__}: {e}"))
+    return out
+
+
 def run(tier="quick", seed=0):
     import signac
     from signac.diff import diff_jobs
